@@ -273,4 +273,43 @@ theorem insert_wf (a : Arr) (pos v : Nat) (o : Oracle) (h : WF a) : WF (insert a
     · rw [ht, habs, occupied_insSlots, h.tally_eq]
   · rw [he]; exact h
 
+theorem upsert_wf (a : Arr) (pos v : Nat) (o : Oracle) (h : WF a) : WF (upsert a pos v o).arr := by
+  unfold upsert; split
+  · exact update_wf a pos v o h
+  · exact insert_wf a pos v o h
+
+theorem step_wf (a : Arr) (op : Op) (h : WF a) : WF (step a op) := by
+  cases op with
+  | insert p v o => exact insert_wf a p v o h
+  | upsert p v o => exact upsert_wf a p v o h
+  | update p v o => exact update_wf a p v o h
+  | delete i c => exact delete_wf a i c h
+  | uplete i c => exact uplete_wf a i c h
+  | clear => exact clear_wf a
+  | setcapa c o => exact setcapa_wf a c o h
+
+/-- size = number of cells in use (last used index + 1), tally = number of occupied cells,
+    size ≤ capa — in every state reachable by any history and any allocator behaviour -/
+theorem reachable_wf (ops : List Op) : WF (run ops) := by
+  unfold run
+  have : ∀ (a : Arr), WF a → WF (ops.foldl step a) := by
+    induction ops with
+    | nil => intro a h; exact h
+    | cons op ops ih => intro a h; exact ih _ (step_wf a op h)
+  exact this empty ⟨rfl, rfl, Nat.le_refl _⟩
+
+/-- after clear everything reads as empty and the size is 0 -/
+theorem clear_spec (a : Arr) : abs (clear a).1 = [] ∧ (clear a).1.size = 0 ∧ (clear a).1.tally = 0 := by
+  simp [clear, abs]
+
+/-! ## non-vacuity: a concrete well-formed state with capacity 64 on which an insert at index 128
+    (gap far beyond twice the capacity — the case in which the unrepaired doubling loop never
+    returned) meets the hypotheses of the theorems above and succeeds -/
+def ex64 : Arr := { slots := [some 1], size := 1, tally := 1, capa := 64 }
+example : WF ex64 := ⟨rfl, rfl, by decide⟩
+example : (insert ex64 128 7 []).ret = .ok 128 := insert_succeeds ex64 128 7 ⟨rfl, rfl, by decide⟩
+example : read (upsert ex64 128 7 []).arr 128 = some 7 :=
+  (upsert_read ex64 128 7 [] ⟨rfl, rfl, by decide⟩
+    (by unfold upsert; rw [if_neg (by decide)]; exact insert_succeeds ex64 128 7 ⟨rfl, rfl, by decide⟩)).1
+
 end Hawk.Arr
